@@ -110,7 +110,9 @@ prop("C14", "other", _GENERIC + "Proved: dns.tsig._digest feeds the HMAC exactly
      "length-prefixed MAC; the HMAC context is a ghost concatenation (assumed); dns.tsig.validate performs its checks in the "
      "documented order with exact conditions (no additional record: FormError; peer error codes; BadTime exactly when the signing "
      "time is outside the fudge window on either side; key name, then algorithm, case-insensitively; then the MAC over _digest's "
-     "components, modularly over the _digest contract). sign, the message-level composition and bit-flip rejection are bounded.",
+     "components, modularly over the _digest contract); dns.tsig.sign puts into the TSIG record the HMAC of exactly those "
+     "components with the given signing time, keeps the other fields and primes the follow-up context. The message-level "
+     "composition of sign and validate and bit-flip rejection are bounded.",
      assumptions=["A-crypto: hashlib/hmac are trusted"])
 prop("C15", "other", _GENERIC + "Proved: DNSKEY key tag (RFC 4034 appendix B) with loop invariant over the real loop. Other computations are bounded.",
      assumptions=["A-crypto: hash functions are trusted"])
